@@ -74,12 +74,22 @@ MUTANTS = [
  ("c15-hyphen-write", "C15", "C15.R1", "text/hyphen/hyphen.go", "\t\t\tdata := *index.Data\n", "\t\t\tdata := index.Data\n"),
  ("c18-arity", "C18", "C18.R1", "svg/elements_path.go", "if !c.hasSetsOrMore(6, rel) {", "if !c.hasSetsOrMore(4, rel) {"),
  ("c18-h-axis", "C18", "C18.R1", "svg/elements_path.go", "\t\t\tc.lineTo(p, c.currentY)\n", "\t\t\tc.lineTo(p, c.currentX)\n"),
+ ("c06-crlf-order", "C06", "C06.R1", "css/parser/tokenizer.go", '\tcss = bytes.ReplaceAll(css, []byte("\\r\\n"), []byte("\\n"))\n\tcss = bytes.ReplaceAll(css, []byte("\\r"), []byte("\\n"))\n', '\tcss = bytes.ReplaceAll(css, []byte("\\r"), []byte("\\n"))\n\tcss = bytes.ReplaceAll(css, []byte("\\r\\n"), []byte("\\n"))\n'),
+ ("c06-name-class", "C06", "C06.R2", "css/parser/tokenizer.go", "abcdefghijklmnopqrstuvwxyz-_0123456789ABCDEFGHIJKLMNOPQRSTUVWXYZ", "abcdefghijklmnopqrstuvwxyz_0123456789ABCDEFGHIJKLMNOPQRSTUVWXYZ"),
+ ("c06-number-re", "C06", "C06.R3", "css/parser/tokenizer.go", "([eE][+-]?[0-9]+)?`)", "([eE][+-]?[0-9]*)?`)"),
+ ("c14-swapped-args", "C14", "C14.R6", "html/document/document.go", "rectangleAabb(*matrix, posX, posY, width, height)", "rectangleAabb(*matrix, posX, posY, height, width)"),
+ ("c09-colspan-zero", "C09", "C09.R5", "html/boxes/boxes_tree.go", 'Get("colspan"), 1)', 'Get("colspan"), 0)'),
+ ("c10-flex-border", "C10", "C10.R5", "html/layout/flex.go", "child.BorderTopWidth.V() - child.BorderBottomWidth.V()", "child.BorderTopWidth.V() - child.BorderTopWidth.V()"),
+ ("c19-extends-key", "C19", "C19.R3", "css/counters/counters.go", "\t\t\tpreviousTypes.Add(system)\n\n\t\t\textends, system = \"\", \"symbolic\"", "\t\t\tpreviousTypes.Add(counterName)\n\n\t\t\textends, system = \"\", \"symbolic\""),
+ ("c19-numeric-one", "C19", "C19.R1", "css/counters/counters.go", "\tif len(symbols) < 2 {\n\t\treturn \"\", false\n\t}\n\tvar reversedParts []string", "\tif len(symbols) < 1 {\n\t\treturn \"\", false\n\t}\n\tvar reversedParts []string"),
+ ("c08-clip-unreversed", "C08", "C08.R6", "css/validation/expanders.go", "\t\tresultsClips[left], resultsClips[right] = resultsClips[right], resultsClips[left]\n", ""),
  # behaviour-preserving edits: must stay silent
  ("ok-rename-local", "C03", "", "html/tree/style.go", "oldWeight := style[decl.Name].weight\n\t\t\tif oldWeight.isNone() || oldWeight.Less(we) {", "previous := style[decl.Name].weight\n\t\t\tif previous.isNone() || previous.Less(we) {"),
  ("ok-early-continue", "C03", "", "html/tree/style.go", "\t\t\tif oldWeight.isNone() || oldWeight.Less(we) {\n\t\t\t\tstyle[decl.Name] = weigthedValue{weight: we, value: decl.Value, shortand: decl.Shortand}\n\t\t\t}\n\t\t}\n\t}\n\n\t// First, add", "\t\t\tif !(oldWeight.isNone() || oldWeight.Less(we)) {\n\t\t\t\tcontinue\n\t\t\t}\n\t\t\tstyle[decl.Name] = weigthedValue{weight: we, value: decl.Value, shortand: decl.Shortand}\n\t\t}\n\t}\n\n\t// First, add"),
  ("ok-grid-copy-form", "C15", "", "html/layout/grid.go", "\tnames, _ := track.(pr.GridNames)\n\treturn append(pr.GridNames(nil), names...)", "\tnames, _ := track.(pr.GridNames)\n\tout := make(pr.GridNames, len(names))\n\tcopy(out, names)\n\treturn out"),
  ("ok-marker-len", "C01", "", "html/boxes/build.go", 'markerText != "" {', 'len(markerText) != 0 {'),
  ("ok-clip-var", "C14", "", "html/document/draw.go", "\t\t\tif len(clippedBoxes) == 0 {\n", "\t\t\tif n := len(clippedBoxes); n == 0 {\n"),
+ ("ok-space-formfeed", "C06", "", "css/parser/tokenizer.go", "return r == ' ' || r == '\\n' || r == '\\t'", "return r == ' ' || r == '\\n' || r == '\\t' || r == '\\f'"),
  ("ok-matrix-reorder", "C17", "", "matrix/matrix.go", "out.A = t1.A*t2.A + t1.C*t2.B", "out.A = t1.C*t2.B + t2.A*t1.A"),
 ]
 
